@@ -192,3 +192,20 @@ REGISTRY["C11"] = {
         {"name": "TestC11Delivery", "checks": {"quick": 150, "thorough": 5000}, "shards": {"quick": 16, "thorough": 16}, "gomaxprocs": [4, 2, 16, 1]},
     ],
 }
+
+REGISTRY["C06"] = {
+    "pkg": "props/c06",
+    "level": "exploration",
+    "level_text": ("rapid-drawn event-based gateways with 2..3 alternatives (signal / message / message with operation), optionally behind a task, branches "
+                   "ending separately or merging; scripts: an optional early event, a non-empty sequence of up to 4 competing / non-matching events of which "
+                   "adjacent ones may be delivered concurrently from separate goroutines, the answer of the winner's task, then up to 6 late deliveries of "
+                   "(losing) events; perturbation right after the compare-and-swap. Oracle: exactly one branch task requested - the first matching event's for "
+                   "sequential delivery, either one for a concurrent pair - no other branch ever, every ConsumeEvent returns, the instance completes after the "
+                   "winner's task, nothing happens afterwards."),
+    "level_note": EVENT_TRUST,
+    "technique": "rapid property test over generated event scripts incl. concurrent bursts, lock-step differential against the token-game model (any serialisation of a burst accepted)",
+    "rule": ("Distinct = descriptor. Non-trivial = >=2 distinct competing events in the history and (a concurrent pair or a late delivery after the winner's task was answered)."),
+    "tests": [
+        {"name": "TestC06EventGateway", "checks": {"quick": 150, "thorough": 5000}, "shards": {"quick": 16, "thorough": 16}, "gomaxprocs": [4, 2, 16, 8]},
+    ],
+}
